@@ -10,6 +10,12 @@ Definition V_VIOLATION : N := 1.
 Definition V_DIVERGE : N := 2.
 Definition V_MALFORMED : N := 9.
 
+(* [rep p n]: the byte string [p] repeated [n] times.  The harness writes long
+   periodic stretches of a header value this way (harness/src/bin/c20.rs,
+   [g_big], which decodes its own term and compares it with the bytes sent)
+   instead of tens of thousands of numerals. *)
+Definition rep (p : str) (n : N) : str := concat (repeat p (N.to_nat n)).
+
 (* what came back after a 101 *)
 Inductive echo_obs :=
   (* small payloads: the pieces sent and the bytes received, compared here *)
@@ -47,10 +53,19 @@ Definition reserved_names : list str :=
     [116;114;97;110;115;102;101;114;45;101;110;99;111;100;105;110;103];
     [101;120;112;101;99;116]; [104;111;115;116] ].
 Definition wire_ok (w : list (str * str)) : bool :=
-  (N.of_nat (length w) <=? 90) &&
+  (N.of_nat (length w) <=? 300) &&
   forallb (fun l => negb (is_nil (fst l)) && forallb is_tchar (fst l)
                     && forallb value_byte_ok (snd l)
                     && negb (mem_str (str_lower (fst l)) reserved_names)) w.
+
+(* hyper contract (hyper 1.6 role.rs DEFAULT_MAX_HEADERS, httparse
+   TooManyHeaders -> Parse::TooLarge): the request parser holds 100 field
+   lines; a request with more is answered 431 by hyper itself and the
+   connection is closed, before dropshot sees anything.  The harness always
+   sends a Host line before the lines of the case. *)
+Definition hyper_max_fields : N := 100.
+Definition too_many_fields (w : list (str * str)) : bool :=
+  hyper_max_fields <? N.of_nat (length w) + 1.
 
 (* ---------- the property, executable ---------- *)
 
@@ -111,6 +126,15 @@ Definition judge (c : c20case) : N :=
   match c with
   | CHandshake wire obs =>
       if negb (wire_ok wire) then V_MALFORMED else
+      if too_many_fields wire then
+        (* outside what hyper lets through: the property is silent, the
+           contract above is the expectation *)
+        match obs with
+        | OStatus 431 followup 0 =>
+            if (followup =? 1) || (followup =? 4) then V_AGREE else V_DIVERGE
+        | _ => V_DIVERGE
+        end
+      else
       let hs := map deliver wire in
       let cl := classify hs in
       (* the digest the property demands: of the key the request carries *)
